@@ -143,6 +143,5 @@ package controllers
 //@   sink Client.Patch#1 requires [C15] finalizers(arg1)[finalizer]
 //@   ensures [C15] result == nil ==> old(finalizers(obj)[finalizer]) || W() == old(W()) + 1
 //@ func package-operator.run/internal/controllers.EnsureCachedFinalizer
-//@   sink EnsureFinalizer:Client.Patch#1 requires [C15] true
 //@   ghost finEnsured(obj) := result == nil
 //@   ensures [C15] finEnsured(obj) == (result == nil)
